@@ -422,7 +422,7 @@ func checkMain(a []string) int {
 	}
 	if level == "fault_enumeration" {
 		cov["exhaustive"] = evaluations > 0 && !hard
-		cov["exhaustive_scope"] = "scenarios persist-fault and read-fault: the fault space of each generated workload (every byte offset of a failing writer / every storage-read index incl. the reads of Load x 4 error kinds / every cancellation point) is enumerated completely; the workloads themselves are sampled. Other scenarios in per_scenario (read-fault-large: 30-80 evenly spread fault positions per workload; lifecycle: one drawn fault per step) are sampled, not enumerated"
+		cov["exhaustive_scope"] = "scenarios persist-fault and read-fault: the fault space of each generated workload (every byte offset of a failing writer / every storage-read index incl. the reads of Load x 5 error kinds / every cancellation point) is enumerated completely; the workloads themselves are sampled. Other scenarios in per_scenario (read-fault-large: 30-80 evenly spread fault positions per workload; lifecycle: one drawn fault per step) are sampled, not enumerated"
 	}
 	ev := map[string]interface{}{
 		"property_id": prop,
